@@ -40,10 +40,11 @@ SPEC = {
     "PCoin": dict(params=[("probability", "Q")], flags={}, consts={"regular": False}, state=[], dead=["current_value"], mk=None),
     "PFlipFlop": dict(params=[("p_on", "Q"), ("p_off", "Q")], flags={}, consts={}, state=[("value", "Z")], dead=["initial"], mk=None),
     "PSkip": dict(params=[("play", "Q")], flags={}, consts={"regular": False}, state=[("pattern", "stream")], dead=["pos"], mk=None),
+    "PChoice": dict(params=[("values", "list Z"), ("weights", "option (list Q)")], flags={}, consts={}, state=[], dead=[], mk=None),
     "PShuffle": dict(params=[("repeats", "Z")], flags={}, consts={}, state=[("values", "list Z"), ("pos", "Z"), ("rcount", "Z")],
                      dead=["values_orig"], mk="mkShuf"),
 }
-COQTY = {"Q": "Q", "Z": "Z", "stream": "list (option Z)", "list Z": "list Z"}
+COQTY = {"Q": "Q", "Z": "Z", "stream": "list (option Z)", "list Z": "list Z", "option (list Q)": "option (list Q)"}
 
 
 class Tr:
@@ -111,6 +112,19 @@ class Tr:
             if a in env["state"]:
                 return k(self.sty[a], env["state"][a], env)
             raise Reject("attribute self.%s is not declared in SPEC" % a)
+        if (isinstance(n, ast.Call) and isinstance(n.func, ast.Name) and n.func.id == "wnchoice" and len(n.args) == 2 and len(n.keywords) == 1
+                and n.keywords[0].arg == "rng" and is_self_attr(n.keywords[0].value) and n.keywords[0].value.attr == "rng"):
+            # util.wnchoice(array, weights, rng=self.rng): Chance.wnchoice (normalize + windex on one unit draw; hand-written)
+            def kw1(ta, a, e1):
+                def kw2(tb, b, e2):
+                    if ta != "list Z" or tb != "list Q":
+                        raise Reject("wnchoice of a %s with weights %s" % (ta, tb))
+                    r, g2, v = self.fresh("r"), self.fresh("g"), self.fresh("v")
+                    e3 = self.upd(e2, g=g2)
+                    return "(let (%s, %s) := wnchoice R r_unit %s %s %s in\n match %s with\n | Some %s =>%s\n | None => %s\n end)" % (
+                        r, g2, a, b, e2["g"], r, v, I(k("Z", v, e3)), self.res(e3, "Fail"))
+                return self.ev(n.args[1], e1, kw2)
+            return self.ev(n.args[0], env, kw1)
         if isinstance(n, ast.Call) and not n.keywords:
             f = n.func
             if is_static(f, "Pattern", "value") and len(n.args) == 1 and is_self_attr(n.args[0]):
@@ -141,6 +155,15 @@ class Tr:
                         return "(let (%s, %s) := d_unit R r_unit %s in%s)" % (u, g2, e2["g"], I(k("Q", "(%s + (%s - %s) * %s)%%Q" % (A, B, A, u), e3), 1))
                     return self.ev(n.args[1], e1, k2)
                 return self.ev(n.args[0], env, k1)
+            if (isinstance(f, ast.Attribute) and f.attr == "choice" and is_self_attr(f.value) and f.value.attr == "rng" and len(n.args) == 1):
+                def kc(ta, a, e1):
+                    if ta != "list Z":
+                        raise Reject("rng.choice of a %s" % ta)
+                    r, g2, v = self.fresh("r"), self.fresh("g"), self.fresh("v")
+                    e2 = self.upd(e1, g=g2)
+                    return "(let (%s, %s) := choice R r_below %s %s in\n match %s with\n | Some %s =>%s\n | None => %s\n end)" % (
+                        r, g2, a, e1["g"], r, v, I(k("Z", v, e2)), self.res(e2, "Fail"))
+                return self.ev(n.args[0], env, kc)
             if isinstance(f, ast.Name) and f.id == "int" and len(n.args) == 1:
                 def ki(ta, a, e1):
                     if ta != "Q":
@@ -242,6 +265,20 @@ class Tr:
                 e2["state"][st.target.attr] = t
                 return cont(e2)
             return self.ev(ast.BinOp(load, st.op, st.value), env, ku)
+        if (isinstance(st, ast.If) and isinstance(st.test, ast.Compare) and len(st.test.ops) == 1 and isinstance(st.test.ops[0], (ast.Is, ast.IsNot))
+                and isinstance(st.test.comparators[0], ast.Constant) and st.test.comparators[0].value is None
+                and isinstance(st.test.left, ast.Name) and env["locals"].get(st.test.left.id, ("",))[0].startswith("option ")):
+            # x is (not) None on an optional parameter: the two cases of the option
+            nm = st.test.left.id
+            ty, t = env["locals"][nm]
+            inner = ty[len("option "):].strip("()")
+            w = self.fresh("w")
+            e_some = self.upd(env)
+            e_some["locals"][nm] = (inner, w)
+            e_none = self.upd(env)
+            e_none["locals"][nm] = ("none", "ONone")
+            some_b, none_b = (st.body, st.orelse) if isinstance(st.test.ops[0], ast.IsNot) else (st.orelse, st.body)
+            return "(match %s with\n | Some %s =>%s\n | None =>%s\n end)" % (t, w, I(self.run(some_b + rest, e_some)), I(self.run(none_b + rest, e_none)))
         if isinstance(st, ast.If):
             def kc(t, e):
                 if t == "true":                      # decided on the domain of the machine: the other branch is not translated
@@ -300,6 +337,10 @@ def main(out_path):
             tr = Tr(cname, spec, fs[0])
             env = {"state": {f: "s_" + f for (f, _) in spec["state"]}, "locals": {}, "g": "g"}
             term = tr.run(fs[0].body, env)
+            if "wnchoice" in ast.unparse(fs[0]):
+                imps = [a for nn in ast.walk(tree) if isinstance(nn, ast.ImportFrom) and nn.module == "util" and nn.level == 2 for a in nn.names if a.name == "wnchoice" and a.asname is None]
+                if len(imps) != 1:
+                    raise Reject("wnchoice is not `from ..util import wnchoice`")
             sty = ("shuf_state" if spec["mk"] else (COQTY[spec["state"][0][1]] if spec["state"] else "unit"))
             sig = "".join(" (%s : bool)" % v for v in spec["flags"].values())
             sig += "".join(" (p_%s : %s)" % (p, COQTY[t]) for (p, t) in spec["params"])
